@@ -293,6 +293,139 @@ def check_history(ctx: Ctx, hist: dict, model_out: str | None, enc) -> None:
                 any_diff = True
 
 
+# ---------------------------------------------------------------------------------------------------------
+# graph part: Model/Load.lean (load_graph) — which modules a warm run builds
+
+LOAD_FILES = ["MypyVerif/Model/Load.lean"]
+PRI_INDIRECT = 30
+
+
+def _mod_of_path(rel: str) -> str | None:
+    for ext in (".pyi", ".py"):
+        if rel.endswith(ext):
+            stem = rel[: -len(ext)]
+            parts = stem.split(os.sep)
+            if parts[-1] == "__init__":
+                parts = parts[:-1]
+            return ".".join(parts) if parts else None
+    return None
+
+
+def _user(run: dict) -> set[str]:
+    return {m for m, p in (run.get("paths") or {}).items() if p and "typeshed" not in p and "site-packages" not in p}
+
+
+def graph_lines(hist: dict) -> list[tuple[int, str, dict]]:
+    """(step, model input line, decoding info) for every step whose warm run recorded what load_graph read."""
+    out = []
+    for k, st in enumerate(hist["steps"]):
+        warm, cold = st["warm"], st["cold"]
+        if warm.get("meta_view") is None or not warm.get("roots") or not cold.get("deps"):
+            continue
+        found = {m for m in (_mod_of_path(r) for r in st["files"]) if m}
+        ids: dict[str, int] = {}
+
+        def mid(m: str) -> int:
+            if m not in ids:
+                ids[m] = len(ids)
+            return ids[m]
+        keep = lambda m: m in found or m in _user(cold) or m in _user(warm)
+        imports, ancestors = {}, {}
+        for run in (warm, cold):            # cold wins: it parsed every module it loaded
+            for m in _user(run):
+                imp = [d for d, p in run["deps"].get(m, []) if p != PRI_INDIRECT]
+                imp += [d for d, p in (run.get("suppressed_pri") or {}).get(m, []) if p != PRI_INDIRECT]
+                anc = (run.get("ancestors") or {}).get(m, [])
+                imports[m] = sorted({d for d in imp if keep(d) and d not in anc})
+                ancestors[m] = sorted(d for d in anc if keep(d))
+        cached = {}
+        for m, mv in warm["meta_view"].items():
+            cached[m] = ([(d, p == PRI_INDIRECT) for d, p in mv["deps"] if keep(d)],
+                         [(d, p == PRI_INDIRECT) for d, p in mv["supp"] if keep(d)])
+        roots = [m for m in warm["roots"]]
+        enc = lambda l: ",".join(str(mid(x)) for x in l) or "-"
+        encd = lambda l: ",".join(f"{mid(d)}:{int(i)}" for d, i in l) or "-"
+        line = " | ".join([
+            enc(roots), enc(sorted(found)),
+            ";".join(f"{mid(m)}={enc(v)}" for m, v in sorted(ancestors.items())) or "-",
+            ";".join(f"{mid(m)}={enc(v)}" for m, v in sorted(imports.items())) or "-",
+            ";".join(f"{mid(m)}={encd(d)}/{encd(sp)}" for m, (d, sp) in sorted(cached.items())) or "-"])
+        out.append((k, line, {"ids": dict(ids), "found": sorted(found), "roots": roots,
+                              "real_warm": sorted(_user(warm)), "real_cold": sorted(_user(cold))}))
+    return out
+
+
+def _as_raw_case(hist: dict, upto: int, probe_mods: list[str]) -> dict:
+    """The first `upto`+1 steps of a history as a raw corpus case; at the last step every file of a module in
+    `probe_mods` gets a line with a type error, so that building / not building the module shows in the output."""
+    steps, prev = [], {}
+    for k, st in enumerate(hist["steps"][: upto + 1]):
+        cur = {p: f["text"] for p, f in st["files"].items() if p != "mypy.ini"}
+        if k == upto:
+            for p in list(cur):
+                if _mod_of_path(p) in probe_mods:
+                    cur[p] = cur[p] + ("" if cur[p].endswith("\n") or not cur[p] else "\n") + "zz_graph_probe: int = ''\n"
+        e = {p: t for p, t in cur.items() if prev.get(p) != t}
+        e.update({p: None for p in prev if p not in cur})
+        steps.append(e)
+        prev = cur
+    return {"name": "graph-probe", "origin": "search", "targets": hist.get("targets") or sorted(p for p in prev if p.endswith((".py", ".pyi"))),
+            "ini": "[mypy]\n", "steps": steps}
+
+
+def graph_part(ctx: Ctx, hists: list[dict]) -> None:
+    from translate import loadcfg
+    loadcfg.main()
+    proved = ctx.prove("MypyVerif.Props.C02Load", LOAD_FILES)
+    ctx.trusted("model: Model/Load.lean (load_graph: imports by parsing vs cached dependency / suppressed lists, priorities, "
+                "findability); the configuration (which cached lists are filtered by PRI_INDIRECT) is regenerated by translate/loadcfg.py; "
+                "`Faithful` (a usable cache entry was written from the current source) is established by mkMeta_faithful in the model "
+                "and observed, not proved, for the real write_cache")
+    items = []
+    for h in hists:
+        for k, line, info in graph_lines(h):
+            items.append((h, k, line, info))
+    outs = ctx.lean_driver("Driver/C02Load.lean", [it[2] for it in items]) if items else []
+    broken = []
+    for (h, k, line, info), out in zip(items, outs):
+        inv = {v: m for m, v in info["ids"].items()}
+        dec = lambda fld: sorted(inv[int(x)] for x in out.split(fld + "=")[1].split(" ")[0].split(",") if x not in ("-", ""))
+        try:
+            mw, mc = dec("warm"), dec("cold")
+        except Exception:
+            raise ToolFailure(f"Driver/C02Load.lean answered {out!r}")
+        nontrivial = bool(h.get("targets")) and k > 0
+        ctx.case(("graph", h["hid"], h["config"], k), nontrivial=nontrivial)
+        ctx.count("traces_validated_against_impl")
+        ctx.dist("graph_step", "entry-targets" if h.get("targets") else "all-files-listed")
+        if info["real_warm"] != info["real_cold"]:
+            extra = sorted(set(info["real_warm"]) ^ set(info["real_cold"]))
+            ctx.count("disagreements_checked")
+            probe = run_raw(ctx, f"gp-{h['hid']}-{k}", h["config"], _as_raw_case(h, k, extra))
+            if not output_diffs(ctx, probe):
+                ctx.violation(f"the warm run builds other modules than the cold run ({h['config']}, step {k}): {extra}; theorem "
+                              "Load.warm_graph_eq_cold no longer describes load_graph; a type error planted in these modules did not change the output",
+                              {"broken": "theorem Load.warm_graph_eq_cold (Props/C02Load.lean) vs mypy.build.load_graph",
+                               "config": h["config"], "step": k, "targets": h.get("targets"), "only_in_one_graph": extra,
+                               "history": [{"edits": s["edits"], "files": {p: f["text"] for p, f in s["files"].items()}} for s in h["steps"][:k + 1]]},
+                              found_input=False)
+            continue
+        if mw != info["real_warm"] or mc != info["real_cold"]:
+            broken.append({"config": h["config"], "step": k, "targets": h.get("targets"), "model_warm": mw, "real_warm": info["real_warm"],
+                           "model_cold": mc, "real_cold": info["real_cold"], "line": line})
+    ctx.coverage["graph_steps"] = len(items)
+    if broken and not ctx.violations:
+        # warm and cold graphs agreed on every one of these steps, so there is no failing input to show
+        ctx.violation(f"graph-loading correspondence broken on {len(broken)} of {len(items)} steps: Model/Load.lean predicts other module "
+                      "sets than load_graph built; warm and cold runs built the same modules on all of them",
+                      {"broken": "correspondence Driver/C02Load (Model/Load.lean succWarm/succCold) vs mypy.build.load_graph", "examples": broken[:5]},
+                      found_input=False)
+    if not proved and not ctx.violations:
+        ctx.violation("Lean development for C02 (graph part) no longer checks: the regenerated load_graph configuration does not satisfy "
+                      "cfg_filtered, or the model no longer builds; the corpus and generated histories showed no differing warm run",
+                      {"broken": "Props/C02Load.lean (cfg_filtered / warm_graph_eq_cold_generated)", "ties": ctx.broken_ties}, found_input=False)
+
+
 def f7_witness(ctx: Ctx) -> None:
     """The known finding F7 (same-size edit within the same mtime second is invisible), kept visible."""
     base = os.path.join(ctx.tmp, "f7")
@@ -358,6 +491,7 @@ def main(ctx: Ctx) -> None:
                     "rechecked_per_step": [B.user_modules(s["warm"].get("rechecked")) for s in h["steps"]],
                     "messages_per_step": [len(s["warm"].get("stdout", "").splitlines()) for s in h["steps"]],
                     "model_line": lines[0][:600] if lines else None, "model_out": outs[0][:400] if outs else None})
+    graph_part(ctx, hists)
     f7_witness(ctx)
     if not proved and not ctx.violations:
         ctx.violation("Lean development for C02 no longer builds", {"broken": ctx.broken_ties}, found_input=False)
